@@ -13,14 +13,14 @@ CHECK_DEADLOCK FALSE
 """
 
 
-def strace_run(ctx, binp, kind, layout, goroutines, calls, out):
-    d = os.path.join(ctx.scratch, "st-%s-%s-%d" % (kind, layout, goroutines))
+def strace_run(ctx, binp, kind, layout, goroutines, calls, out, extra=()):
+    d = os.path.join(ctx.scratch, "st-%s-%s-%d-%d" % (kind, layout, goroutines, len(extra)))
     os.makedirs(d, exist_ok=True)
     tr = os.path.join(d, "strace.txt")
     ackr, ackw = os.pipe()
     so = open(os.path.join(d, "stdout.txt"), "wb")
     cmd = ["strace", "-f", "-e", "trace=write,writev,pwrite64", "-s", "2000", "-o", tr, binp, "crashchild",
-           "--kind", kind, "--layout", layout, "--dir", d, "--goroutines", str(goroutines), "--calls", str(calls)]
+           "--kind", kind, "--layout", layout, "--dir", d, "--goroutines", str(goroutines), "--calls", str(calls)] + list(extra)
     # the child writes acknowledgements to fd 3
     p = subprocess.Popen(cmd, stdout=so, stderr=subprocess.PIPE, pass_fds=(), preexec_fn=lambda: os.dup2(ackw, 3),
                          close_fds=False)
@@ -111,8 +111,15 @@ def run(ctx):
             ("rolling", "JSONLayout", 4, 4), ("console", "TextLayout", 2, 6), ("console", "JSONLayout", 1, 8)]
     if thorough:
         runs = runs + [(k, l, g, 30) for (k, l, g, _) in runs]
-    for kind, layout, g, n in runs:
-        nack += strace_run(ctx, binp, kind, layout, g, n, dump)
+    for i, (kind, layout, g, n) in enumerate(runs):
+        extra = []
+        if i % 2 == 1:
+            extra += ["--layoutat", "logger"]          # the logger formats, the appender's Write path is used
+        if layout == "TextLayout" and i % 3 == 0:
+            extra += ["--rawevery", "3"]               # raw writes through the named handle
+        if kind == "rolling":
+            extra += ["--churn", "1"]                  # every call rotates
+        nack += strace_run(ctx, binp, kind, layout, g, n, dump, extra)
     nlines = sum(1 for _ in open(dump))
     if nack == 0:
         raise vf.Infra("strace recorded no acknowledgements")
